@@ -1399,7 +1399,8 @@ fn run_e2e(rt: &tokio::runtime::Runtime, rng: &mut Rng, report: &mut Report, n: 
     use cardinalsin::query::{QueryConfig, QueryNode};
     use cardinalsin::StorageConfig;
     use object_store::memory::InMemory;
-    for _ in 0..n {
+    for round in 0..n {
+        let legacy = round % 2 == 1;
         let future = 4_000_000_000_000_000_000i64; // year 2096: after the executor's merge timestamp (now)
         let mut batches = Vec::new();
         let nb = rng.range_usize(1, 4);
@@ -1440,12 +1441,19 @@ fn run_e2e(rt: &tokio::runtime::Runtime, rng: &mut Rng, report: &mut Report, n: 
             let store = Arc::new(InMemory::new());
             let metadata = Arc::new(LocalMetadataClient::new());
             let channel = TopicBroadcastChannel::new(64);
+            let legacy_channel = BroadcastChannel::new(64);
             let rx = channel.subscribe(TopicFilter::All).await;
-            let node = QueryNode::new(QueryConfig::default(), store, metadata, StorageConfig::default())
+            let mut node = QueryNode::new(QueryConfig::default(), store, metadata, StorageConfig::default())
                 .await
                 .map_err(|e| format!("QueryNode::new: {}", e))?
                 .with_topic_filter(rx);
-            let mut stream = node.query_stream_filtered(&sql).await.map_err(|e| format!("query_stream_filtered: {}", e))?;
+            node.connect_broadcast(legacy_channel.subscribe());
+            // alternate between the topic-filtered and the legacy broadcast path of the executor
+            let mut stream = if legacy {
+                node.query_stream(&sql).await.map_err(|e| format!("query_stream: {}", e))?
+            } else {
+                node.query_stream_filtered(&sql).await.map_err(|e| format!("query_stream_filtered: {}", e))?
+            };
             // let the spawned task reach its receive loop, then flush the batches
             tokio::task::yield_now().await;
             let mut expect = Vec::new();
@@ -1453,7 +1461,11 @@ fn run_e2e(rt: &tokio::runtime::Runtime, rng: &mut Rng, report: &mut Report, n: 
                 if b.rows == 0 {
                     continue;
                 }
-                let _ = channel.send(TopicBatch { batch: b.to_arrow(), metadata: BatchMetadata { shard_id: "s".into(), tenant_id: 1, metrics: vec![] } });
+                if legacy {
+                    let _ = legacy_channel.send(b.to_arrow());
+                } else {
+                    let _ = channel.send(TopicBatch { batch: b.to_arrow(), metadata: BatchMetadata { shard_id: "s".into(), tenant_id: 1, metrics: vec![] } });
+                }
                 // any instant between the real "now" and `future` separates the two groups of rows
                 let o = run_filter_impl_engine_only(&FCase { merge: future - 2_000_000, wh: Some(wh.clone()), batch: b.clone() }).await;
                 match o {
@@ -1487,7 +1499,7 @@ fn run_e2e(rt: &tokio::runtime::Runtime, rng: &mut Rng, report: &mut Report, n: 
                 }
             }
             Ok((got, expect)) => {
-                report.bump("e2e.run");
+                report.bump(if legacy { "e2e.run_legacy_broadcast" } else { "e2e.run_topic_filtered" });
                 report.case(Some(&format!("e2e|{}|{:?}", sql, expect)));
                 if got != expect {
                     report.oracle_violation(
